@@ -2,7 +2,8 @@
    Statements only; proofs in Proofs/LedgerP.v.  Each theorem is about ONE deploy from an
    arbitrary world (so it applies at every deploy step of every history, with any filter/profile:
    [roots]/[D] are the render result for the selected targets); hypotheses wfD/wfM as in C05. *)
-From AP Require Import Base.Str Gen.Tables Model.Deploy Proofs.DeployP Proofs.ConvergeP Proofs.LedgerP Proofs.RollbackP Proofs.HistoryP.
+From AP Require Import Base.Str Gen.Tables Model.Deploy Model.Crash Proofs.DeployP Proofs.ConvergeP Proofs.LedgerP Proofs.RollbackP Proofs.HistoryP
+  Proofs.CrashP Proofs.RerunP Proofs.RerunCrashP.
 Open Scope N_scope.
 
 (* every desired file — written by this deploy or found byte-identical — is listed by the manifest
@@ -78,6 +79,20 @@ Proof.
   - intros d Hd. rewrite Hf. exact (proj1 (deploy_converged _ _ _ _ _ _ _ _ _ Hdep HD HM) d Hd).
 Qed.
 Print Assumptions C15_rollback_continuity.
+
+(* records follow the writes, also under interruption: at ANY fault point of deploy --apply, if some
+   root's manifest no longer holds its previous content then every desired file already holds its
+   rendered bytes and every recorded, no-longer-desired file is already gone — a manifest never
+   lists a file agentpack has not written (or found identical) yet *)
+Theorem C15_records_follow_writes : forall w roots D flt k r,
+  wfD roots D -> wfM D (managed_for_plan w roots flt) -> In r roots ->
+  let pl := plan (files w) D (managed_for_plan w roots flt) in
+  let st := run_prefix k (steps_of_apply (files w) roots D pl) (init_state (files w)) in
+  cfiles st (mf_path r) <> files w (mf_path r) ->
+  (forall d, In d D -> cfiles st (dpath d) = Some (FBytes (dcontent d))) /\
+  (forall t p, In (t, p) (managed_for_plan w roots flt) -> mem_key (t, p) D = false -> cfiles st p = None).
+Proof. intros w roots D flt k r HD HM Hr pl st. exact (records_follow_writes w roots D flt HD HM k r Hr). Qed.
+Print Assumptions C15_records_follow_writes.
 
 Example C15_continuity_refuted :
   let r := Build_root (s "codex") [s "h"; s "skills"] true in
